@@ -13,6 +13,17 @@ or per cell (full or row-cyclic matrix) over ALL frame columns, including the pa
 removed from the display; a data cell whose own flag is off holds ^ _ >= <= (must be read back verbatim), a cell whose
 flag is on holds conversion-neutral text.  Single-section under every strategy, and multi-section with page_by /
 subline_by sections (the removed column anywhere among the columns).  Lean: Props/C02encflag.lean.
+
+Documents nmixed.. of a run are the *edge column name* class (laygen.edge_names / gen_multi_names): the frame's columns —
+data columns and page_by / subline_by columns, one up to all of them — are called by names some layer could read as
+something else than a name: polars selector syntax (`*`, `^x$`, `^.*$`), regexes / prefixes / extensions / case
+variants of OTHER names of the same frame, the empty string, blanks, non-ASCII, a cell value, an attribute or
+metadata-column name, numeric-looking, very long, punctuation, conversion tokens, RTF-active characters (only where no
+header shows the names) — under every strategy with and without column removal, columns in generator order or
+permuted, single- and multi-section.  The auto-populated header shows the names: info['name_headers'] carries the rows
+of names, and laygen.classify recognises exactly those rows as headers.  Lean: Props/C02encnames.lean (the encoder
+model resolves the removed names to POSITIONS once and never looks at a name again; the rendered rows are invariant
+under every injective renaming of the columns).
 """
 from __future__ import annotations
 
@@ -30,11 +41,18 @@ MANIFEST = dict(
          "flag is off is written verbatim. "
          "Tied to the code on every run by observation of sentinel-tagged documents (single- and multi-section), "
          "incl. documents with per-column / per-cell text_convert over removed page_by / subline_by columns and "
-         "token-bearing (^ _ >= <=) cells wherever the cell's own flag is off.",
+         "token-bearing (^ _ >= <=) cells wherever the cell's own flag is off, and documents whose columns carry edge "
+         "NAMES (polars selector syntax, regexes / prefixes / case variants of other names, empty, blank, non-ASCII, "
+         "cell values, attribute names, numeric-looking, very long). Props/C02encnames: the encoder model removes "
+         "columns by position; the rows it renders are the same under every injective renaming of the columns.",
     note="Cell text equality is checked on the observation (reader decodes the bytes); that the escaper's bytes "
          "decode to the text is C10's theorem. str() of values, polars slicing and pydantic are parameters. "
          "Unconverted cells hold printable ASCII without \\ { } (text_convert off writes the text as raw RTF); "
-         "converted cells hold conversion-neutral text, as the property's quantifier says. group_by is outside C02.",
+         "converted cells hold conversion-neutral text, as the property's quantifier says. group_by is outside C02. "
+         "Column names are arbitrary distinct strings (a polars frame admits no equal names); names with \\ { } are "
+         "drawn only where no header shows the names (a header text is RTF-active like any text). A header row is "
+         "recognised as the row showing the displayed columns' names up to text conversion (^ _ >= <=), which is not "
+         "C02's subject.",
     technique="Lean 4 proof (partition of rows by monotone page numbers) + observation-level correspondence",
     design="7/C02",
 )
@@ -46,7 +64,14 @@ RULE = ("seeded tagged tables (0..45 rows, 1..4 data columns incl. padded and bl
         "page_by / subline_by columns that are removed from the display, where every data cell whose own flag is off "
         "holds printable ASCII with ^ _ >= <= (read back verbatim) and every cell whose flag is on holds "
         "conversion-neutral text — single-section under every strategy and multi-section with page_by / subline_by "
-        "sections; non-trivial = ≥ 2 pages; distinct by (strategy, nrow, rows per page)")
+        "sections; plus documents with edge column NAMES for data columns and page_by / subline_by columns alike "
+        "(polars selector syntax '*' '^x$' '^.*$', regexes / prefixes / extensions / case variants of other names of "
+        "the same frame, '', blanks, non-ASCII, a cell or group value, attribute / metadata-column names, "
+        "numeric-looking, 60–300 characters, punctuation incl. '-----', conversion tokens, and — where no header shows "
+        "the names — RTF-active characters), one column up to all columns renamed, columns in generator order or "
+        "permuted, under every strategy with and without column removal, with auto-populated / explicit / no header, "
+        "single-section and multi-section (the removed column anywhere; the same odd name in several sections); "
+        "non-trivial = ≥ 2 pages; distinct by (strategy, nrow, rows per page)")
 
 SAFE_OFF = "".join(c for c in string.printable[:94] if c not in "\\{}")  # printable ASCII without \ { }
 
@@ -265,17 +290,116 @@ def gen_multi(rng):
     return spec, info
 
 
+NAME_STRATEGIES = ["page_by", "page_by", "page_by_np_first", "subline", "subline", "subline_page_by", "page_by_np",
+                   "plain"]
+
+
+def gen_names(rng, k):
+    """single-section document whose columns — data columns and page_by / subline_by columns — carry names of the
+    edge family (laygen.edge_names): under every strategy, with and without column removal, one column up to all
+    columns renamed, the frame's columns in generator order or permuted"""
+    spec, info = laygen.gen_spec(rng, strategy=rng.choice(NAME_STRATEGIES), n=rng.randint(1, 30),
+                                 dividers=(k % 4 == 0), nulls=0.0,
+                                 header_mode=rng.choice(["default", "default", "default", "explicit", "none",
+                                                         "no_colheader", "explicit2"]))
+    convert_off = rng.random() < 0.3
+    if convert_off:
+        spec["body"]["text_convert"] = False
+    mutate_cells(rng, spec, info, convert_off)
+    laygen.edge_names(rng, spec, info, permute=rng.random() < 0.5)
+    cols = spec["df"]["cols"]
+    di = [cols.index(c) for c in info["displayed"]]
+    info["expect"] = [[docgen.display(r[c]) for c in di] for r in spec["df"]["rows"]]
+    return spec, info
+
+
+def gen_multi_names(rng):
+    """multi-section document: sections with page_by (spanning rows) / subline_by / neither, the removed column
+    anywhere among the columns, column names of the edge family (the same odd name may recur in several sections);
+    headers explicit, absent, or auto-populated from the names"""
+    nsec = rng.randint(2, 3)
+    frames, bodies, headers, expect, name_rows = [], [], [], [], []
+    base = 0
+    labels = ["names-doc", "names-multi-doc"]
+    auto = rng.random() < 0.4
+    for s in range(nsec):
+        n = rng.randint(1, 10)
+        nd = rng.randint(1, 3)
+        mode = rng.choice(["page_by", "page_by", "subline", "subline", "none"])
+        key = {"page_by": "PB0", "subline": "SL0"}.get(mode)
+        pos = rng.randint(0, nd) if key else None
+        cols = [f"S{s}COL{j}" for j in range(nd)]
+        if key:
+            cols.insert(pos, key)
+        ncols = len(cols)
+        data_idx = [c for c in range(ncols) if cols[c] != key]
+        keys = docgen.run_keys(rng, n, [("G0" if mode == "page_by" else "SB") + x for x in "abcd"], 1, 4) if key else None
+        rows = []
+        for i in range(n):
+            row = []
+            for c in range(ncols):
+                if cols[c] == key:
+                    row.append(keys[i])
+                    continue
+                j = data_idx.index(c)
+                row.append(None if (j > 0 and rng.random() < 0.1) else f"r{base + i}c{j}")
+            rows.append(row)
+        # names: every column with probability 0.6, at least one
+        chosen = [c for c in range(ncols) if rng.random() < 0.6] or [rng.randrange(ncols)]
+        cell_named = False
+        for c in chosen:
+            current = [x for jj, x in enumerate(cols) if jj != c]
+            cells = [] if cell_named else sorted({r[jj] for r in rows[:4] for jj in range(ncols) if jj != c and r[jj]})
+            for _ in range(20):
+                kind, name = laygen.draw_name(rng, current, cells, raw_ok=not auto, long_max=150)
+                if name not in current:
+                    break
+            else:
+                continue
+            where = ("data" if cols[c] != key else mode + "-removed")
+            labels.append(f"name:{kind}@{where}")
+            if kind in ("selector-all", "selector-regex", "regex-of-other") and cols[c] != key and key:
+                labels.append("names:selector-like-displayed-with-removal:multi")
+            cell_named = cell_named or kind == "cell-value"
+            if cols[c] == key:
+                key = name
+            cols[c] = name
+        frames.append(dict(cols=cols, rows=rows))
+        body = {}
+        if mode == "page_by":
+            body["page_by"] = [key]
+        elif mode == "subline":
+            body["subline_by"] = [key]
+        bodies.append(body)
+        headers.append([dict(text=[f"HD{s}c{j}" for j in range(nd)])] if rng.random() < 0.6 else [None])
+        name_rows.append([cols[c] for c in data_idx])
+        expect += [[docgen.display(r[c]) for c in data_idx] for r in rows]
+        base += n
+    spec = dict(kind="multi", df=frames, body=bodies, headers="default" if auto else headers,
+                page=dict(nrow=rng.randint(6, 30)), footnote=dict(text="FTNOTE") if rng.random() < 0.4 else None)
+    info = dict(strategy="multi", header_mode="multi-auto" if auto else "multi", n=base, model=False, page_by=None,
+                subline_by=None, expect=expect, name_headers=name_rows if auto else [],
+                labels=sorted(set(labels)))
+    return spec, info
+
+
 class C02(layfamily.Family):
     prop, tag = "C02", "c02"
 
     def nbase(self, tier):
         return 320 if tier == "quick" else 5000
 
-    def ndocs(self, tier):
+    def nmixed(self, tier):
         # the documents after the first nbase are the per-column / per-cell text_convert class
         return self.nbase(tier) + (160 if tier == "quick" else 2000)
 
+    def ndocs(self, tier):
+        # … and the documents after those are the edge-column-name class
+        return self.nmixed(tier) + (240 if tier == "quick" else 3000)
+
     def gen(self, rng, k, tier):
+        if k >= self.nmixed(tier):
+            return gen_multi_names(rng) if k % 6 == 5 else gen_names(rng, k)
         if k >= self.nbase(tier):
             return gen_multi_mixed(rng) if k % 8 == 7 else gen_mixed(rng, k)
         if k % 9 == 8:
@@ -315,6 +439,13 @@ class C02(layfamily.Family):
 
     def project(self, pages, info):
         return [[b[1] for b in p if b[0] == "data"] for p in pages]
+
+    def shrink_steps(self, case):
+        """a failing document with edge column names: one name at a time put back to its sentinel name"""
+        for name in list((case["info"].get("colnames") or {})):
+            cand = laygen.unname(case, name)
+            if cand is not None:
+                yield cand
 
     def cross_prepare(self, spec, info):
         """documents of the whole-encoder class (harness/crosscorr.py): the display texts of the displayed columns"""
@@ -467,7 +598,11 @@ def run(res, build):
         explanation="C02_pages_structure / C02_rows_once_in_order / C02_row_on_its_page hold for every LDoc (any "
                     "row count, nrow, keys, flags); cell-level clauses C02_kept_cols_order / C02_row_cells for every "
                     "column list; C02encflag_cell_own_flag / C02encflag_off_verbatim: per-column / per-cell "
-                    "text_convert binds to the cell's original position. Multi-section documents are covered by the "
+                    "text_convert binds to the cell's original position; C02encnames_removedIdx / C02encnames_rows: "
+                    "the encoder model resolves the page_by / subline_by names to column POSITIONS once (keepMask / "
+                    "dropCols work with indices only), so the rendered rows are the same under every injective "
+                    "renaming of the columns — a name such as '*' or '^x$' is a name like any other. "
+                    "Multi-section documents are covered by the "
                     "observation oracle only (the layout model is single-section; each section runs the same pipeline).")
 
 
